@@ -5,7 +5,7 @@ import impl
 
 TOP = ['theories/Props/C11.v', 'theories/Props/C11_iter.v', 'theories/Tie/TieTables.v',
        'theories/Tie/TieUtils.v', 'theories/Tie/TieUtilsIter.v', 'theories/Tie/TieUtilsVerbose.v', 'theories/Tie/TieColor.v', 'theories/Tie/TieWrColorFull.v',
-       'theories/Tie/TiePng.v']
+       'theories/Tie/TiePng.v', 'theories/Tie/TieSvg.v']
 
 RULE = ('all 44 symbol sizes, a real symbol per size (random content/level/mask from the seed), '
         'matrix_iter_verbose compared cell by cell with the extracted ISO classifier for several (scale, border); '
@@ -73,6 +73,20 @@ def run(ctx):
                     kf_queries.append((len(failures) - 1, size, i, j))
         if len(samples) < 4:
             samples.append({'version': version, 'scale': scale, 'border': border, 'row8': grid[(8 + b) * s][:40]})
+    # ---- per-type colouring in SVG: colour values that coincide across the dark / light divide (read back by the extracted SVG reader
+    #      through the C10 job machinery)
+    from props import c10 as c10mod
+    svg_jobs = []
+    for desc in (dict(content='HELLO', version=1, error='H'), dict(content='AB', version='M2'), dict(content='seven', version=7)):
+        qq = impl.segno.make(boost_error=False, **desc)
+        subj = c10mod.Subject(desc, qq.matrix)
+        for kw in c10mod.COINCIDING:
+            for scale, border in ((1, None), (2, 0)):
+                svg_jobs.append(c10mod.Job(subj, 'svg', scale, border, dict(kw)))
+    c10mod.run_jobs(svg_jobs)
+    for j in svg_jobs:
+        n += 1
+        failures += j.failures[:2]
     # ---- per-type colouring: PNG and PPM with k distinct colours (k = 2..12, with / without a transparent one)
     import io as _io, struct as _struct, zlib as _zlib
     OPT_OF_TYPE = {1536: 'finder_dark', 6: 'finder_light', 1024: 'data_dark', 4: 'data_light', 4096: 'version_dark', 16: 'version_light',
